@@ -655,3 +655,65 @@ func VerifC02Orphan() {
 	vassert(counts["x"] <= 1, "a node nothing leads to executes at most once per run (if the graph is accepted at all)")
 	vassert(counts["a"] <= 1 && counts["b"] <= 1, "every node executes at most once per run")
 }
+
+// A pass-through typed forward from a node whose input and output types differ (string -> int), or backward from its
+// consumer, triggered by a control-only dependency while its only data predecessor is skipped: it hands the zero value
+// (Invoke) / an empty stream (Stream) of the type it carries on to its successor, which runs once.
+func VerifC02PassthroughZero() {
+	ctx := context.Background()
+	vcfg("fifo", 1)
+	vcfg("selectfirst", 1)
+	vcfgMapOrderIn("compose.Workflow[")
+	skip := vchoose("skip", 2) == 1
+	x := vsymInt("x")
+	runs := 0
+	got := -1
+	wf := NewWorkflow[int, map[string]any]()
+	wf.AddLambdaNode("src", InvokableLambda(func(ctx context.Context, in string) (int, error) { return len(in) + x, nil })).
+		AddInputWithOptions("pre", nil, WithNoDirectDependency())
+	wf.AddLambdaNode("pre", InvokableLambda(func(ctx context.Context, in int) (string, error) { return "ab", nil })).AddInput(START)
+	wf.AddLambdaNode("other", InvokableLambda(func(ctx context.Context, in string) (string, error) { return in, nil })).
+		AddInputWithOptions("pre", nil, WithNoDirectDependency())
+	wf.AddBranch("pre", NewGraphMultiBranch(func(ctx context.Context, in string) (map[string]bool, error) {
+		if skip {
+			return map[string]bool{"other": true}, nil
+		}
+		return map[string]bool{"src": true, "other": true}, nil
+	}, map[string]bool{"src": true, "other": true}))
+	wf.AddPassthroughNode("p").AddInput("src").AddDependency("other")
+	wf.AddLambdaNode("use", InvokableLambda(func(ctx context.Context, n int) (int, error) {
+		runs++
+		got = n
+		return n, nil
+	})).AddInput("p")
+	// a node with differing input and output types that is triggered by a dependency only (no data at all)
+	depRuns, depGot := 0, -1
+	wf.AddLambdaNode("dep", InvokableLambda(func(ctx context.Context, n int) (string, error) {
+		depRuns++
+		depGot = n
+		return "d", nil
+	})).AddDependency("other")
+	wf.End().AddInput("use", ToField("use")).AddInput("dep", ToField("dep"))
+	r, err := wf.Compile(ctx)
+	vassert(err == nil, "workflow compiles")
+	var res map[string]any
+	var rerr error
+	if vchoose("stream", 2) == 1 {
+		sr, e := r.Stream(ctx, 1)
+		rerr = e
+		if e == nil {
+			res, rerr = vDrainMap(sr)
+		}
+	} else {
+		res, rerr = r.Invoke(ctx, 1)
+	}
+	out, _ := res["use"].(int)
+	vassert(rerr != nil || (depRuns == 1 && depGot == 0 && res["dep"] == "d"), "a node triggered by a dependency only runs once on the zero value of its input type")
+	vassert(rerr == nil, "the run succeeds whether or not the pass-through's data predecessor is skipped")
+	vassert(runs == 1, "the successor of the pass-through runs exactly once")
+	if skip {
+		vassert(got == 0 && out == 0, "a pass-through without data hands on the zero value of the type it carries")
+	} else {
+		vassert(got == 2+x && out == 2+x, "a pass-through hands on the value of its data predecessor")
+	}
+}
